@@ -224,7 +224,8 @@ Definition conn_close : M :=
   bind (fun s => match c_root s with Some r => t_close r s | None => (Ok, s) end)
        (fun s => (Ok, set_closed true s)).
 
-(* "not self._deactivated_from_connection" (named _transaction_is_closed in the source) *)
+(* Transaction._transaction_is_closed() = "not self._deactivated_from_connection" = the object is
+   still installed on the connection; __exit__ calls close() when this is FALSE (sic) *)
 Definition installed (k : nat) s :=
   if is_root k s then opt_is (c_root s) k else opt_is (c_nested s) k.
 
@@ -247,7 +248,7 @@ Definition t_exit (k : nat) (exc : bool) : M := fun s =>
   else
     finally
       (fun s1 => if negb (active k s1)
-                 then (if installed k s1 then t_close k s1 else (Ok, s1))
+                 then (if installed k s1 then (Ok, s1) else t_close k s1)
                  else t_rollback k s1) fin s.
 
 (* Connection.in_transaction / in_nested_transaction *)
